@@ -48,10 +48,15 @@ struct NoReader : BlockReader {
 };
 inline std::vector<uint8_t> altHash(uint8_t id) { std::vector<uint8_t> h(32, 0); h[0] = id; return h; }
 inline AltBlock mkAlt(uint8_t id, uint8_t prev, int32_t height) { AltBlock b; b.hash = altHash(id); b.previousBlock = altHash(prev); b.height = height; b.timestamp = 1000 + 10 * height; return b; }
+#ifdef VBK_KI
+struct VPK : VbkChainParamsRegTest { uint32_t getKeystoneInterval() const noexcept override { return VBK_KI; } };   // small VBK keystone interval: POP fork resolution of VBK is reachable with short chains
+#else
+typedef VbkChainParamsRegTest VPK;
+#endif
 typedef BlockTree<VbkBlock, VbkChainParams> PlainVbkTree;
 typedef BlockTree<BtcBlock, BtcChainParams> PlainBtcTree;
 struct RealWorld {
-  AP ap; VbkChainParamsRegTest vp; BtcChainParamsRegTest bp; MemPayloads store; NoReader reader;
+  AP ap; VPK vp; BtcChainParamsRegTest bp; MemPayloads store; NoReader reader;
   AltBlockTree* alt = nullptr;
   // the "miner" side: plain SP trees in which the hand-made blocks are built (contextual header rules are applied here too)
   PlainVbkTree* mvbk = nullptr; PlainBtcTree* mbtc = nullptr;
